@@ -123,6 +123,7 @@ theorem kw_anyIf : rawC (b "anyIf(toFloat64OrNull(val), key == ") = true := by d
 theorem kw_distinct : rawC (b "distinct ") = true := by decide +kernel
 theorem kw_mul : rawC (b " * ") = true := by decide +kernel
 theorem kw_div : rawC (b " / ") = true := by decide +kernel
+theorem kw_mapFilterNone : rawC (b "mapFilter((k,v) -> 0, ") = true := by decide +kernel
 theorem kw_mapFilterIn : rawC (b "mapFilter((k,v) -> k " ++ b "IN" ++ b " (") = true := by decide +kernel
 theorem kw_mapFilterNotIn : rawC (b "mapFilter((k,v) -> k " ++ b "NOT IN" ++ b " (") = true := by decide +kernel
 theorem kw_closeComma : rawC (b "), ") = true := by decide +kernel
@@ -280,6 +281,9 @@ theorem closedExpr : ∀ e : Expr, wfExpr e = true → PE (segsExpr e)
     simpa [segsExpr, List.append_assoc] using PE.sep (closedExpr x h.1) (PC_raw kw_div) (closedExpr y h.2)
   | .mapFilterKeys keep keys m, h => by
     simp [wfExpr] at h
+    by_cases he : (keep && keys.isEmpty) = true
+    · have h2 := PC.wrap (PC_raw kw_mapFilterNone) (closedExpr m h) (PC_raw kw_close)
+      simpa [segsExpr, he, List.append_assoc] using h2.toPE
     have hk : PE (joinS (b ",") (keys.map (fun k => [Seg.str k]))) :=
       PE_joinS (PC_raw kw_comma) _ (PE_of_mem_map (fun k _ => PE_str k))
     have hpre : PC [Seg.raw (b "mapFilter((k,v) -> k " ++ b (if keep then "IN" else "NOT IN") ++ b " (")] := by
@@ -288,7 +292,7 @@ theorem closedExpr : ∀ e : Expr, wfExpr e = true → PE (segsExpr e)
       · exact PC_raw kw_mapFilterIn
     have h1 := PC.wrap hpre hk (PC_raw kw_closeComma)
     have h2 := PC.wrap h1 (closedExpr m h) (PC_raw kw_close)
-    simpa [segsExpr, List.append_assoc] using h2.toPE
+    simpa [segsExpr, he, List.append_assoc] using h2.toPE
   | .mapAt m key, h => by
     simp [wfExpr] at h
     have := PE.appendPC (PE.sep (closedExpr m h) (PC_raw kw_osb) (PE_str key)) (PC_raw kw_csb)
@@ -314,6 +318,7 @@ theorem closedExpr : ∀ e : Expr, wfExpr e = true → PE (segsExpr e)
     have h2 := PC.wrap h1 (closedExpr m h) (PC_raw kw_close)
     simpa [segsExpr, List.append_assoc] using h2.toPE
   | .labelsFp, _ => by simpa [segsExpr] using PE_raw kw_labelsFp
+  | .quantileAgg units scale col, h => by simpa [segsExpr] using PE_raw (by simpa [wfExpr] using h)
 theorem closedSels : ∀ ss : List Sel, wfSels ss = true → ∀ x ∈ segsSels ss, PE x
   | [], _ => by simp [segsSels]
   | s :: ss, h => by
